@@ -138,16 +138,23 @@ class ExplosiveBinary(object):
     table and the rule cache grow to hundreds of thousands of entries within one sentence (tuning
     constants / capacity limits that ordinary workloads never reach)"""
 
-    def __init__(self, modulus, salt):
+    def __init__(self, modulus, salt, fanout=1):
         self.modulus = modulus
         self.salt = salt
+        self.fanout = fanout
 
     def __call__(self, x, y):
         import hashlib
         from depccg.cat import Atom
         from depccg.types import CombinatorResult
-        h = int(hashlib.md5(f'{self.salt}|{x}|{y}'.encode()).hexdigest()[:8], 16) % self.modulus
-        return [CombinatorResult(Atom(f'H{h}'), 'e', '<e>', True)]
+        digest = hashlib.md5(f'{self.salt}|{x}|{y}'.encode()).hexdigest()
+        out, seen = [], set()
+        for k in range(self.fanout):
+            h = int(digest[8 * k:8 * k + 8], 16) % self.modulus
+            if h not in seen:
+                seen.add(h)
+                out.append(CombinatorResult(Atom(f'H{h}'), f'e{k}', f'<e{k}>', True))
+        return out
 
 
 class NoUnary(object):
@@ -225,7 +232,7 @@ def build_from_spec(spec):
         head_uniform = len(heads) <= 1
         lang = spec.get('lang', 'en')
     elif kind == 'explosive':
-        binary = ExplosiveBinary(spec['modulus'], spec['salt'])
+        binary = ExplosiveBinary(spec['modulus'], spec['salt'], spec.get('fanout', 1))
         unary = NoUnary()
         head_uniform = True
         lang = 'en'
